@@ -275,3 +275,219 @@ example : (0 : Nat) < exHeap.next ∧ (exHeap.t 0).base = none ∧ liveChildren 
       rw [this]; simp
 
 end MG.C13
+
+/-! ## an in-place update discards the gradients of the whole view family (any forest) -/
+
+namespace MG.C13
+open MG.Eng MG.ND
+
+/-- no tensor acquires a gradient: wherever `h` has none, `h'` has none -/
+def GradMono (h h' : Heap) : Prop := ∀ x, (h.t x).grad = none → (h'.t x).grad = none
+
+theorem GradMono.refl (h : Heap) : GradMono h h := fun _ hx => hx
+theorem GradMono.trans {a b c : Heap} (h1 : GradMono a b) (h2 : GradMono b c) : GradMono a c :=
+  fun x hx => h2 x (h1 x hx)
+
+theorem gradMono_modT (h : Heap) (i : Nat) (f : Tens → Tens) (hf : ∀ t, t.grad = none → (f t).grad = none) :
+    GradMono h (h.modT i f) := by
+  intro x hx
+  by_cases e : x = i
+  · subst e; rw [t_modT_self]; exact hf _ hx
+  · rw [t_modT_ne _ _ _ _ e]; exact hx
+
+theorem gradMono_reroute (h : Heap) (a b : Nat) : GradMono h (reroute h a b) := by
+  intro x hx
+  by_cases e : a = b
+  · -- degenerate: still only ops are touched
+    have : ∀ (L : List Nat) (h : Heap), ((L.foldl (fun h f =>
+        let o := h.op f
+        h.setOp f { o with vars := o.vars.map fun v => if v = b then a else v }) h).t x) = h.t x := by
+      intro L; induction L with
+      | nil => intro h; rfl
+      | cons f L ih => intro h; simp only [List.foldl_cons]; rw [ih]; rfl
+    unfold reroute; rw [this]; exact hx
+  · rw [(reroute_spec h a b e).1 x]; exact hx
+
+/-- `make_placeholder_tensor` never gives a gradient to anything: the placeholder mirrors a tensor without one -/
+theorem makePlaceholder_gradMono {h h' : Heap} {x p : Nat} {b : Option Nat}
+    (hm : makePlaceholder h x b = .ok (h', p)) : GradMono h h' ∧ (h'.t p).grad = none ∧ (h.t x).grad = none := by
+  unfold makePlaceholder at hm
+  by_cases hg : (h.t x).grad.isSome = true
+  · simp [hg] at hm
+  · simp only [hg] at hm
+    have hgn : (h.t x).grad = none := by
+      cases hgx : (h.t x).grad with
+      | none => rfl
+      | some v => simp [hgx] at hg
+    injection hm with hm
+    injection hm with h1 h2
+    subst h1; subst h2
+    have key : ∀ y, (((mirror h.fresh.1 h.fresh.2 x).modT h.fresh.2 ({ · with base := b })).t y).grad = none
+        ↔ (y = h.next ∨ (h.t y).grad = none) := by
+      intro y
+      by_cases e : y = h.next
+      · subst e
+        simp [mirror, hgn]
+      · simp only [mirror, fresh_snd]
+        rw [t_modT_ne _ _ _ _ e, t_setT_ne _ _ _ _ e]
+        simp [e]
+    refine ⟨fun y hy => ?_, ?_, hgn⟩
+    · exact gradMono_reroute _ _ _ y ((key y).2 (Or.inr hy))
+    · exact gradMono_reroute _ _ _ _ ((key h.next).2 (Or.inl rfl))
+
+end MG.C13
+
+namespace MG.C13
+open MG.Eng MG.ND
+
+/-- the step function of `_duplicate_graph`'s loop over the live view children -/
+def dupStep (fuel : Nat) (live : List Nat) (basePh tensor : Nat) (acc : Heap × List Node) (child : Nat) :
+    Except (Err × Heap) (Heap × List Node) :=
+  let h0 := acc.1.modT child ({ · with grad := none, viewGrad := none })
+  match makePlaceholder h0 child (some basePh) with
+  | .error e => Except.error (e, h0)
+  | .ok (h, p) => duplicate fuel h live basePh child (acc.2 ++ [Node.mk child p (some tensor)])
+
+def DupPost (h : Heap) (nodes : List Node) (h' : Heap) (nodes' : List Node) : Prop :=
+  GradMono h h' ∧ ∀ n ∈ nodes', n ∈ nodes ∨ (h'.t n.tensor).grad = none
+
+theorem dupFold_post (fuel : Nat) (live : List Nat) (bp t : Nat)
+    (ih : ∀ h c nodes h' nodes', duplicate fuel h live bp c nodes = .ok (h', nodes') → DupPost h nodes h' nodes') :
+    ∀ (cs : List Nat) (acc : Heap × List Node) (h' : Heap) (nodes' : List Node),
+      cs.foldlM (dupStep fuel live bp t) acc = .ok (h', nodes') → DupPost acc.1 acc.2 h' nodes' := by
+  intro cs
+  induction cs with
+  | nil =>
+    intro acc h' nodes' hr
+    simp only [List.foldlM_nil, pure, Except.pure] at hr
+    injection hr with hr
+    subst hr
+    exact ⟨GradMono.refl _, fun n hn => Or.inl hn⟩
+  | cons c cs ihl =>
+    intro acc h' nodes' hr
+    rw [List.foldlM_cons] at hr
+    cases hF : dupStep fuel live bp t acc c with
+    | error e => rw [hF] at hr; simp [Bind.bind, Except.bind] at hr
+    | ok a =>
+      rw [hF] at hr
+      simp only [Bind.bind, Except.bind] at hr
+      obtain ⟨h2, nodes2⟩ := a
+      obtain ⟨g2, n2⟩ := ihl (h2, nodes2) h' nodes' hr
+      -- unpack the step
+      unfold dupStep at hF
+      simp only at hF
+      cases hmk : makePlaceholder (acc.1.modT c ({ · with grad := none, viewGrad := none })) c (some bp) with
+      | error e => rw [hmk] at hF; simp at hF
+      | ok hp =>
+        obtain ⟨h1, p⟩ := hp
+        rw [hmk] at hF
+        simp only at hF
+        obtain ⟨gm1, _, _⟩ := makePlaceholder_gradMono hmk
+        obtain ⟨g12, n12⟩ := ih h1 c _ h2 nodes2 hF
+        have g0 : GradMono acc.1 (acc.1.modT c ({ · with grad := none, viewGrad := none })) :=
+          gradMono_modT _ _ _ (fun _ _ => rfl)
+        have hc0 : ((acc.1.modT c ({ · with grad := none, viewGrad := none })).t c).grad = none := by simp
+        refine ⟨(g0.trans gm1).trans (g12.trans g2), fun n hn => ?_⟩
+        rcases n2 n hn with hin | hnone
+        · rcases n12 n hin with hin' | hnone'
+          · rcases List.mem_append.mp hin' with hold | hnew
+            · exact Or.inl hold
+            · have : n = Node.mk c p (some t) := by simpa using hnew
+              subst this
+              exact Or.inr (g2 _ (g12 _ (gm1 _ hc0)))
+          · exact Or.inr (g2 _ hnone')
+        · exact Or.inr hnone
+
+theorem duplicate_eq_fold (fuel : Nat) (h : Heap) (live : List Nat) (bp t : Nat) (nodes : List Node) :
+    duplicate (fuel + 1) h live bp t nodes =
+      (let children := liveChildren h live t
+       if children.isEmpty then .ok (h, nodes)
+       else match children.foldlM (dupStep fuel live bp t) (h, nodes) with
+        | .error e => .error e
+        | .ok (h, nodes) =>
+          let phOf (t : Nat) : Nat := ((nodes.find? fun n => n.tensor = t).map (·.placeholder)).getD t
+          .ok (h.modT (phOf t) ({ · with vchildren := children.map phOf }), nodes)) := by
+  rfl
+
+theorem duplicate_post : ∀ (fuel : Nat) (live : List Nat) (bp : Nat) (h : Heap) (t : Nat) (nodes : List Node)
+    (h' : Heap) (nodes' : List Node),
+    duplicate fuel h live bp t nodes = .ok (h', nodes') → DupPost h nodes h' nodes' := by
+  intro fuel live bp
+  induction fuel with
+  | zero =>
+    intro h t nodes h' nodes' hr
+    simp only [duplicate] at hr
+    injection hr with hr; injection hr with h1 h2
+    subst h1; subst h2
+    exact ⟨GradMono.refl _, fun n hn => Or.inl hn⟩
+  | succ fuel ih =>
+    intro h t nodes h' nodes' hr
+    rw [duplicate_eq_fold] at hr
+    simp only at hr
+    by_cases hc : (liveChildren h live t).isEmpty = true
+    · simp only [hc, if_true] at hr
+      injection hr with hr; injection hr with h1 h2
+      subst h1; subst h2
+      exact ⟨GradMono.refl _, fun n hn => Or.inl hn⟩
+    · simp only [hc] at hr
+      cases hf : (liveChildren h live t).foldlM (dupStep fuel live bp t) (h, nodes) with
+      | error e => rw [hf] at hr; simp at hr
+      | ok a =>
+        obtain ⟨h2, nodes2⟩ := a
+        rw [hf] at hr
+        simp only at hr
+        injection hr with hr; injection hr with h1 hn2
+        subst hn2
+        obtain ⟨g, n⟩ := dupFold_post fuel live bp t (fun h c nodes h' nodes' => ih h c nodes h' nodes') _ (h, nodes) h2 nodes2 hf
+        have gm : GradMono h2 h' := by
+          rw [← h1]
+          exact gradMono_modT _ _ _ (fun _ ht => ht)
+        refine ⟨g.trans gm, fun m hm => ?_⟩
+        rcases n m hm with hin | hnone
+        · exact Or.inl hin
+        · exact Or.inr (gm _ hnone)
+
+end MG.C13
+
+namespace MG.C13
+open MG.Eng MG.ND
+
+/-- **mkDupGraph_discards_family_grads** (any view forest).  When `DuplicatingGraph(base)` succeeds, the base
+and every view placed in the graph hold no gradient any more, and no tensor anywhere acquired one: an in-place
+update discards the — now stale — gradients of the whole view family before it rewires the graph (C07: "its
+.grad and that of its views read None"), which is also why `make_placeholder_tensor`'s assertion can no longer
+fire half-way through and leave a partly re-routed graph behind (C13). -/
+theorem mkDupGraph_discards_family_grads (h : Heap) (live : List Nat) (base : Nat) (h' : Heap) (g : DupGraph)
+    (hr : mkDupGraph h live base = .ok (h', g)) :
+    (∀ n ∈ g.nodes, (h'.t n.tensor).grad = none) ∧
+    (∀ x, x ≠ base → (h.t x).grad = none → (h'.t x).grad = none) := by
+  unfold mkDupGraph at hr
+  simp only at hr
+  cases hmk : makePlaceholder (h.modT base ({ · with grad := none, viewGrad := none })) base
+      ((h.modT base ({ · with grad := none, viewGrad := none })).t base).base with
+  | error e => rw [hmk] at hr; simp at hr
+  | ok hp =>
+    obtain ⟨h1, p⟩ := hp
+    rw [hmk] at hr
+    simp only at hr
+    cases hd : duplicate h1.fuel h1 live p base [⟨base, p, none⟩] with
+    | error e => rw [hd] at hr; simp at hr
+    | ok a =>
+      obtain ⟨h2, nodes⟩ := a
+      rw [hd] at hr
+      simp only at hr
+      injection hr with hr; injection hr with e1 e2
+      subst e1; subst e2
+      obtain ⟨gm1, _, _⟩ := makePlaceholder_gradMono hmk
+      obtain ⟨g12, n12⟩ := duplicate_post _ live p h1 base _ h2 nodes hd
+      have hb0 : ((h.modT base ({ · with grad := none, viewGrad := none })).t base).grad = none := by simp
+      refine ⟨fun n hn => ?_, fun x hx hg => ?_⟩
+      · rcases n12 n hn with hin | hnone
+        · have : n = ⟨base, p, none⟩ := by simpa using hin
+          subst this
+          exact g12 _ (gm1 _ hb0)
+        · exact hnone
+      · apply g12; apply gm1
+        rw [t_modT_ne _ _ _ _ hx]; exact hg
+
+end MG.C13
